@@ -67,7 +67,10 @@ BreakByte == 255
 IndefHead(mt) == <<mt * 32 + 31>>
 
 (* ------------------------------- parser ------------------------------- *)
-Fail == [ok |-> FALSE]
+(* a parse fails either because the input is malformed (Fail) or because it  *)
+(* ends before the item is complete (Short: a proper prefix of an item)      *)
+Fail  == [ok |-> FALSE, short |-> FALSE]
+Short == [ok |-> FALSE, short |-> TRUE]
 
 WidthOf(ai) == IF ai < 24 THEN 0
                ELSE IF ai = 24 THEN 1
@@ -81,7 +84,8 @@ RECURSIVE PItem(_, _, _), PItems(_, _, _, _, _), PIndef(_, _, _, _, _), PChunks(
 (* one data item of b starting at position p (1-based); d = depth budget   *)
 (* result: [ok |-> TRUE, e |-> first position after the item, n |-> node]  *)
 PItem(b, p, d) ==
-    IF p > Len(b) \/ d = 0 THEN Fail ELSE
+    IF p > Len(b) THEN Short ELSE
+    IF d = 0 THEN Fail ELSE
     LET ib == b[p]
         mt == ib \div 32
         ai == ib % 32
@@ -92,7 +96,7 @@ PItem(b, p, d) ==
         CASE mt \in {MT_BSTR, MT_TSTR} -> PChunks(b, p + 1, mt, <<>>, <<>>)
           [] mt \in {MT_ARR, MT_MAP}   -> PIndef(b, p + 1, mt, <<>>, d - 1)
           [] OTHER -> Fail
-    ELSE IF p + w > Len(b) THEN Fail
+    ELSE IF p + w > Len(b) THEN Short
     ELSE
     LET arg == IF w = 0 THEN (IF ai = 0 THEN <<>> ELSE <<ai>>)
                ELSE Strip(SubSeq(b, p + 1, p + w))
@@ -101,26 +105,26 @@ PItem(b, p, d) ==
     CASE mt \in {MT_UINT, MT_NINT} ->
             [ok |-> TRUE, e |-> q, n |-> [t |-> mt, w |-> w, a |-> arg]]
       [] mt \in {MT_BSTR, MT_TSTR} ->
-            IF ~FitsInt(arg) THEN Fail
+            IF ~FitsInt(arg) THEN Short
             ELSE LET L == ToInt(arg) IN
-                 IF q + L - 1 > Len(b) THEN Fail
+                 IF q + L - 1 > Len(b) THEN Short
                  ELSE [ok |-> TRUE, e |-> q + L,
                        n |-> [t |-> mt, w |-> w, a |-> arg, s |-> SubSeq(b, q, q + L - 1)]]
       [] mt = MT_ARR ->
-            IF ~FitsInt(arg) THEN Fail
+            IF ~FitsInt(arg) THEN Short
             ELSE LET r == PItems(b, q, ToInt(arg), <<>>, d - 1) IN
-                 IF ~r.ok THEN Fail
+                 IF ~r.ok THEN r
                  ELSE [ok |-> TRUE, e |-> r.e,
                        n |-> [t |-> mt, w |-> w, a |-> arg, kids |-> r.kids]]
       [] mt = MT_MAP ->
-            IF ~FitsInt(arg) THEN Fail
+            IF ~FitsInt(arg) THEN Short
             ELSE LET r == PItems(b, q, 2 * ToInt(arg), <<>>, d - 1) IN
-                 IF ~r.ok THEN Fail
+                 IF ~r.ok THEN r
                  ELSE [ok |-> TRUE, e |-> r.e,
                        n |-> [t |-> mt, w |-> w, a |-> arg, kids |-> r.kids]]
       [] mt = MT_TAG ->
             LET r == PItem(b, q, d - 1) IN
-            IF ~r.ok THEN Fail
+            IF ~r.ok THEN r
             ELSE [ok |-> TRUE, e |-> r.e,
                   n |-> [t |-> mt, w |-> w, a |-> arg, kids |-> <<r.n>>]]
       [] OTHER -> \* MT_SIMPLE: simple values and floats; raw argument bytes kept
@@ -132,12 +136,12 @@ PItem(b, p, d) ==
 PItems(b, p, k, acc, d) ==
     IF k = 0 THEN [ok |-> TRUE, e |-> p, kids |-> acc]
     ELSE LET r == PItem(b, p, d) IN
-         IF ~r.ok THEN Fail
+         IF ~r.ok THEN r
          ELSE PItems(b, r.e, k - 1, Append(acc, r.n), d)
 
 (* items of an indefinite-length array/map up to the break *)
 PIndef(b, p, mt, acc, d) ==
-    IF p > Len(b) THEN Fail
+    IF p > Len(b) THEN Short
     ELSE IF b[p] = BreakByte THEN
         IF mt = MT_MAP /\ Len(acc) % 2 = 1 THEN Fail
         ELSE [ok |-> TRUE, e |-> p + 1,
@@ -145,28 +149,38 @@ PIndef(b, p, mt, acc, d) ==
                      a |-> FromInt(IF mt = MT_MAP THEN Len(acc) \div 2 ELSE Len(acc)),
                      kids |-> acc]]
     ELSE LET r == PItem(b, p, d) IN
-         IF ~r.ok THEN Fail
+         IF ~r.ok THEN r
          ELSE PIndef(b, r.e, mt, Append(acc, r.n), d)
 
 (* chunks of an indefinite-length string: definite strings of the same type *)
 PChunks(b, p, mt, chunks, content) ==
-    IF p > Len(b) THEN Fail
+    IF p > Len(b) THEN Short
     ELSE IF b[p] = BreakByte THEN
         [ok |-> TRUE, e |-> p + 1,
          n |-> [t |-> mt, w |-> -1, a |-> FromInt(Len(content)),
                 s |-> content, ch |-> chunks]]
     ELSE IF b[p] \div 32 # mt \/ b[p] % 32 = 31 THEN Fail
     ELSE LET r == PItem(b, p, 1) IN
-         IF ~r.ok THEN Fail
+         IF ~r.ok THEN r
          ELSE PChunks(b, r.e, mt, Append(chunks, r.n), content \o r.n.s)
 
 MaxDepth == 64
 
 (* strict parse of a whole byte sequence as exactly one data item *)
 Parse(b) == LET r == PItem(b, 1, MaxDepth) IN
-            IF r.ok /\ r.e = Len(b) + 1 THEN r ELSE Fail
+            IF ~r.ok THEN r ELSE IF r.e = Len(b) + 1 THEN r ELSE Fail
 
 WellFormed(b) == Parse(b).ok
+
+(* head only: [ok, e |-> position after the head, mt, ai, w, a] *)
+PHead(b, p) ==
+    IF p > Len(b) THEN Short ELSE
+    LET ib == b[p]  mt == ib \div 32  ai == ib % 32  w == WidthOf(ai) IN
+    IF ai \in 28..30 THEN Fail
+    ELSE IF ai = 31 THEN [ok |-> TRUE, e |-> p + 1, mt |-> mt, ai |-> ai, w |-> -1, a |-> <<>>]
+    ELSE IF p + w > Len(b) THEN Short
+    ELSE [ok |-> TRUE, e |-> p + 1 + w, mt |-> mt, ai |-> ai, w |-> w,
+          a |-> IF w = 0 THEN (IF ai = 0 THEN <<>> ELSE <<ai>>) ELSE Strip(SubSeq(b, p + 1, p + w))]
 
 (* position after the item that starts at p, or 0 when there is none *)
 ItemEnd(b, p) == LET r == PItem(b, p, MaxDepth) IN IF r.ok THEN r.e ELSE 0
